@@ -173,6 +173,10 @@ CHECKS["C04"]["stages"].append(
      "quick": {"shards": 2, "checks": 2000, "timeout_s": 420},
      "thorough": {"shards": 8, "checks": 20000, "size": 50, "timeout_s": 2400}})
 CHECKS["C03"]["stages"].append(
+    {"name": "nonce-managers", "pkg": "pure", "run": "^TestC03Nonce$",
+     "quick": {"shards": 2, "checks": 600, "timeout_s": 300},
+     "thorough": {"shards": 8, "checks": 10000, "timeout_s": 1500}})
+CHECKS["C03"]["stages"].append(
     {"name": "tcp-ownership", "pkg": "srvworld", "run": "^TestC03TCP$",
      "quick": {"shards": 2, "checks": 2000, "timeout_s": 420},
      "thorough": {"shards": 8, "checks": 20000, "size": 50, "timeout_s": 2400}})
